@@ -153,12 +153,16 @@ func validOptionalPort(port string) bool {
 	return true
 }
 
+// IsUnsafeMethod reports whether the method is unsafe, i.e. not registered as
+// safe in the IANA HTTP Method Registry (RFC 9110 §9.2.1, §16.1.1). Unknown
+// methods have to be treated as unsafe (RFC 9111 §4.4).
 func IsUnsafeMethod(method string) bool {
 	switch method {
-	case http.MethodPost, http.MethodPut, http.MethodDelete, http.MethodPatch:
-		return true
-	default:
+	case http.MethodGet, http.MethodHead, http.MethodOptions, http.MethodTrace,
+		"PROPFIND", "REPORT", "SEARCH", "PRI":
 		return false
+	default:
+		return true
 	}
 }
 
